@@ -13,13 +13,15 @@ import beartype  # noqa: E402,F401
 # the typechecker packages (verif_spy: c1, verif_spy2: c2) are NOT imported here: the hook names them by a string and
 # they are imported when the first decorated function of a hooked module is defined
 SPIES = {"c1": "verif_spy", "c2": "verif_spy2"}
+# (md5 digests of these two strings share their first 10 hex digits - see harness/c18.py)
+CHECKER_STRINGS = {"c1": "verif_spy.c1_1630558", "c2": "verif_spy2.c2_819212"}
 
 lookups = []
 import importlib._bootstrap_external as _be  # noqa: E402
 
 hook = None
 if cfg["checker"] != "none" and cfg["hooked"]:
-    hook = install_import_hook(cfg["hooked"], SPIES[cfg["checker"]] + "." + cfg["checker"])
+    hook = install_import_hook(cfg["hooked"], CHECKER_STRINGS[cfg["checker"]])
 sys.dont_write_bytecode = bool(cfg.get("nowrite"))      # libraries above were imported (and cached) already
 for m in cfg["order"]:
     try:
